@@ -19,6 +19,7 @@ def main():
     cfgs = list(extract.QUICK) + sorted(extract.THOROUGH_EXTRA)
     paths, tree = extract.ensure_facts(cfgs)
     allf, per, sig, consts, callers = set(), {}, {}, set(), {}
+    sig_cfg = {}
     sys.path.insert(0, os.path.join(HERE, 'rules'))
     import inline
     for c, p in paths.items():
@@ -29,7 +30,10 @@ def main():
         allf.update(names)
         for f in d['fns']:
             if f['path'] in names:
-                sig[f['path']] = [f['inputs'], f['output']]
+                if f['path'] in sig and sig[f['path']] != [f['inputs'], f['output']]:
+                    sig_cfg.setdefault(c, {})[f['path']] = [f['inputs'], f['output']]      # differs between configurations (cfg-gated twins)
+                else:
+                    sig[f['path']] = [f['inputs'], f['output']]
         for b in d['bodies']:
             if b['promoted'] is not None:
                 continue
@@ -38,7 +42,7 @@ def main():
                 cp = inline.callee_path(bl['term'])
                 if cp:
                     callers.setdefault(cp, set()).add(who)
-    out = {'tree': tree, 'all': sorted(allf), 'per_cfg': per, 'sig': sig, 'consts': sorted(consts), 'callers': {k: sorted(v) for k, v in callers.items() if k in allf}}
+    out = {'tree': tree, 'all': sorted(allf), 'per_cfg': per, 'sig': sig, 'consts': sorted(consts), 'sig_cfg': sig_cfg, 'callers': {k: sorted(v) for k, v in callers.items() if k in allf}}
     json.dump(out, open(os.path.join(HERE, 'reference_fns.json'), 'w'), indent=0, sort_keys=True)
     print('%d functions over %d configurations (tree %s)' % (len(allf), len(per), tree))
 
